@@ -466,6 +466,14 @@ func NewEpochFromConfig(
 			}
 			headerSize := uint64(buf.Len())
 			ep.carHeaderSize = headerSize
+			// what the header occupies in the file (as for a remote CAR): the file's encoding of the header
+			// can be valid without being the one WriteHeader produces
+			prefix := make([]byte, binary.MaxVarintLen64)
+			if got, _ := dr.ReadAt(prefix, 0); got > 0 {
+				if payloadLen, n := binary.Uvarint(prefix[:got]); n > 0 {
+					ep.carHeaderSize = uint64(n) + payloadLen
+				}
+			}
 		}
 		if remoteCarReader == nil && localCarReader == nil {
 			return nil, fmt.Errorf("no CAR reader available")
